@@ -784,9 +784,10 @@ pub fn run(tier: Tier) -> i32 {
                 }
             }
         }
-        // stdout that cannot be written
-        for stdin_mode in [false, true] {
-            let dir = tmp.join(format!("e_stdoutfull_{stdin_mode}"));
+        // stdout that cannot be written (also for output without a line break in it, which a
+        // line-buffered stdout holds back until the process ends)
+        for (stdin_mode, gooddoc) in [(false, gooddoc.clone()), (true, gooddoc.clone()), (false, b"<rect wh=\"5\"/>".to_vec()), (true, b"<rect wh=\"5\"/>".to_vec())].iter().map(|(m, d)| (*m, d)) {
+            let dir = tmp.join(format!("e_stdoutfull_{stdin_mode}_{}", gooddoc.len()));
             let _ = std::fs::create_dir_all(&dir);
             let _ = std::fs::write(dir.join("in.xml"), gooddoc);
             let mut cmd = Command::new(SVGDX_BIN);
